@@ -13,7 +13,7 @@ use std::collections::{BTreeMap, HashSet};
 use vcore::{Run, Tier, Violation, util};
 use vstore::tamper::{
     Read, Reader, Scenario, Tamper, WRITERS, Writer, apply_tamper, build_scenario, check_content, check_content_stale,
-    check_content_via_copy, looks_legacy, sites, sizes, stale_applicable,
+    check_content_stale_copy, check_content_via_copy, looks_legacy, sites, sizes, stale_applicable,
 };
 
 fn scenario_label(sc: &Scenario) -> String {
@@ -51,6 +51,12 @@ fn check_site(sc: &Scenario, baseline_failed: &HashSet<Read>, t: &Tamper, strict
     let out = match reader {
         Reader::Fresh => check_content(sc, &content, &touched, strict),
         Reader::Stale => check_content_stale(sc, &content, strict),
+        Reader::StaleCopy => {
+            let (out, acc, refu) = check_content_stale_copy(sc, &content, strict);
+            r.copies_accepted = acc;
+            r.copies_refused = refu;
+            out
+        }
         Reader::Copy | Reader::Rename => {
             let (out, acc, refu) = check_content_via_copy(sc, &content, &touched, strict, reader == Reader::Rename);
             r.copies_accepted = acc;
@@ -119,6 +125,7 @@ fn check_site(sc: &Scenario, baseline_failed: &HashSet<Read>, t: &Tamper, strict
                     Reader::Stale => "; reader = an instance whose cache holds the previous commit of `a` (generation reclaimed)",
                     Reader::Copy => "; the key is first copied to a new key by a fresh instance, the target is read",
                     Reader::Rename => "; the key is first renamed to a new key by a fresh instance, the target is read",
+                    Reader::StaleCopy => "; an instance whose cache holds the previous commit of `a` (generation reclaimed) copies `a` to a new key, the target is read",
                 },
                 serde_json::to_string(t).unwrap_or_default(),
                 serde_json::to_string(&rd).unwrap_or_default(),
@@ -193,6 +200,13 @@ fn main() {
             let keys: Vec<String> = sc.original.keys().cloned().collect();
             let stale = check_content_stale(sc, &sc.base, strict);
             let mut others = vec![(Reader::Stale, stale)];
+            {
+                let (out, _acc, refused) = check_content_stale_copy(sc, &sc.base, strict);
+                if refused > 0 {
+                    vcore::report::machinery(&format!("{}: the stale-cache instance could not copy the untampered object", scenario_label(sc)));
+                }
+                others.push((Reader::StaleCopy, out));
+            }
             for reader in [Reader::Copy, Reader::Rename] {
                 let (out, _acc, refused) = check_content_via_copy(sc, &sc.base, &keys, strict, reader == Reader::Rename);
                 if refused > 0 {
@@ -254,6 +268,7 @@ fn main() {
                 if !t.is_probe() {
                     if stale_applicable(&t, wide) {
                         work.push((i, t.clone(), *strict, Reader::Stale));
+                        work.push((i, t.clone(), *strict, Reader::StaleCopy));
                     }
                     if structured || wide {
                         work.push((i, t.clone(), *strict, Reader::Copy));
@@ -282,7 +297,7 @@ fn main() {
             break;
         }
         let results: Vec<SiteResult> = util::par_map(batch.to_vec(), threads, |(i, t, strict, reader)| {
-            let base = if matches!(reader, Reader::Copy | Reader::Rename) { &baseline_failed_targets[i] } else { &baseline_failed[i] };
+            let base = if matches!(reader, Reader::Copy | Reader::Rename | Reader::StaleCopy) { &baseline_failed_targets[i] } else { &baseline_failed[i] };
             check_site(&scenarios[i], base, &t, strict, reader)
         });
         for ((i, t, strict, reader), r) in batch.iter().zip(results) {
@@ -402,7 +417,7 @@ fn main() {
          sites = every bit of every byte, every truncation length, 4 extensions of every backend object; every chunk swap; every swap / one-way replacement between payload objects (keys and generations) and between metadata documents; \
          CBOR edits of every metadata document (remove / null each field, strip combinations of an, at, av, g, m, c, zero n / an / at / t[i], remove / swap / append tags, alter s, c, av, m, copy g, e, n, t, m, s, an, at and combinations from another key's document and from the older generation's; CBOR edits are read in default and in strict mode); \
          compound downgrade family per key: every subset of {av, an, at, g, m} stripped x legacy object data/<key> {absent, this key's ciphertext, another key's} x size {unchanged, every chunk boundary <= len, the other key's length}, default and strict mode; \
-         further readers of the same sites, same verdict: (stale-cache reader) an instance A that read `a` while its previous commit was current - warm, valid cache entry whose generation instance B's overwrite reclaimed - then meets the tampered backend: every site touching a's metadata document (thorough: also its payload object), one fresh A per read {get, head, 6 ranged gets, 2 get_ranges}, so each read is the one that re-resolves the commit point half-way; (via-copy / via-rename) a fresh instance copies / renames every touched key to a new key - a refusal is a failure to answer - then the full battery on the target must answer the source's original bytes and size: CBOR edits and the compound family, default and strict mode (thorough: every site); \
+         further readers of the same sites, same verdict: (stale-cache reader) an instance A that read `a` while its previous commit was current - warm, valid cache entry whose generation instance B's overwrite reclaimed - then meets the tampered backend: every site touching a's metadata document (thorough: also its payload object), one fresh A per read {get, head, 6 ranged gets, 2 get_ranges}, so each read is the one that re-resolves the commit point half-way, and one more A that copies `a` to a new key and is then read on the target; (via-copy / via-rename) a fresh instance copies / renames every touched key to a new key - a refusal is a failure to answer - then the full battery on the target must answer the source's original bytes and size: CBOR edits and the compound family, default and strict mode (thorough: every site); \
          each site alone on a copy of the content, read through a fresh EncryptedStore: get, every GetRange kind at boundaries {0,1,15,16,17,len-1,len,len+1}, get_ranges (1-2 ranges), head, list, list_with_delimiter, list_with_offset (full battery on the keys whose objects were touched, get/head/get_ranges on the others); \
          distinct = (object, site) pairs for which at least one read failed that the untampered store answers",
     );
